@@ -55,6 +55,9 @@ pub struct Votor<A: All2All> {
     timeout_sender: Sender<VotorTimeout>,
     /// [`All2All`] instance used to broadcast votes.
     all2all: Arc<A>,
+    /// Verification hook: first slots of the windows for which timeouts were armed, in order.
+    #[cfg(feature = "verif-hooks")]
+    verif_armed: std::sync::Mutex<Vec<Slot>>,
 }
 
 impl<A: All2All> Votor<A> {
@@ -96,6 +99,8 @@ impl<A: All2All> Votor<A> {
             timeout_receiver,
             timeout_sender,
             all2all,
+            #[cfg(feature = "verif-hooks")]
+            verif_armed: std::sync::Mutex::new(Vec::new()),
         };
         votor.set_timeouts(Slot::new(0));
         votor
@@ -314,6 +319,11 @@ impl<A: All2All> Votor<A> {
     /// Panics if `slot` is not the first slot of a window.
     fn set_timeouts(&self, slot: Slot) {
         assert!(slot.is_start_of_window());
+        #[cfg(feature = "verif-hooks")]
+        self.verif_armed
+            .lock()
+            .expect("verif lock poisoned")
+            .push(slot);
 
         trace!(
             "setting timeouts for slots {slot}-{}",
@@ -470,6 +480,11 @@ impl<A: All2All> Votor<A> {
             VotorTimeout::Timeout(slot)
         };
         self.handle_timeout_event(event).await;
+    }
+
+    /// Removes and returns the windows (first slots) for which timeouts were armed since the last call.
+    pub fn verif_take_armed(&self) -> Vec<Slot> {
+        std::mem::take(&mut *self.verif_armed.lock().expect("verif lock poisoned"))
     }
 
     /// Highest slot for which a (fast-)finalization certificate was seen.
